@@ -1,6 +1,7 @@
 import Splipy.Lemmas.BridgeOps
 import Splipy.Lemmas.BridgeC09
 import Splipy.Lemmas.BridgeC05
+import Splipy.Lemmas.C05Bridge
 import Splipy.Lemmas.BridgeC07
 import Splipy.Lemmas.BridgePointwise
 import Splipy.Properties.C02
@@ -26,7 +27,8 @@ parameters (`Basis.Admissible`: exact with respect to the knots, inside the doma
   `_pointwise`: `tensor=False`, `_snap`: arbitrary parameters under `Basis.Separated`,
   `_translate_*`: spelled out for `translate`).
 * `Bridge_C07_piece_*_partial` — a piece built by `split` evaluates like the refined object.
-* `Bridge_C05_*` — order elevation of curves (`ElevatedFrom`; clamped bases under `H_sw`).
+* `Bridge_C05_*` — order elevation of curves (`ElevatedFrom`; clamped bases under `H_sw`) and of
+  surfaces on clamped continuous bases (`Bridge_C05_clamped_surface`, no analytic hypothesis).
 For C04/C06/C07/C05 the conclusion is equality of the whole returned tensors (shape and flat data)
 for `tensor=True`, which is entrywise equality, and equality of the returned values (tensor or
 `ValueError` of the length test) for `tensor=False`.  The flat index of entry `(i₁, i₂, c)` of an
@@ -1767,6 +1769,34 @@ theorem Bridge_C05_clamped_full_curve (tol : K) (htol : 0 < tol) (q a : ℕ) (ha
   obtain ⟨⟨o1, h1, E1⟩, ⟨o2, h2, E2⟩, ⟨o3, h3, E3⟩⟩ :=
     C05_geometry_clamped_full tol htol q a ha x0 xl umid mmid hlen hm hknots o nc hb hs
   exact ⟨⟨o1, h1, key o1 E1⟩, ⟨o2, h2, key o2 E2⟩, ⟨o3, h3, key o3 E3⟩⟩
+
+/-- **C05 ⇒ evaluate, SURFACES on clamped continuous bases — no analytic hypothesis.**  With the
+hypotheses of `C05_geometry_clamped_surface` (both bases clamped continuous in the form of
+`C05_knots`, knot spacing `> 2(p'-1)·tol`, amounts `a_u, a_v ≥ 0` not both `0`, no order-1 result)
+the public `raise_order(a_u, a_v)` succeeds, returns the receiver, and the result evaluates to the
+same tensor as the original at every pair of parameter lists admissible for the old and the new
+bases (`SameEvalSurface`: `tensor=True` and `tensor=False`). -/
+theorem Bridge_C05_clamped_surface (tol : K) (htol : 0 < tol)
+    (qu au : ℕ) (hqu : 1 ≤ qu + au) (x0u xlu : K) (umidu : List K) (mmidu : List ℕ)
+    (hlenu : umidu.length = mmidu.length) (hmu : ∀ j ∈ mmidu, 1 ≤ j ∧ j ≤ qu)
+    (hgapu : Separated (2 * ((qu + au : ℕ) : K) * tol) (clampedU x0u xlu umidu))
+    (qv av : ℕ) (hqv : 1 ≤ qv + av) (x0v xlv : K) (umidv : List K) (mmidv : List ℕ)
+    (hlenv : umidv.length = mmidv.length) (hmv : ∀ j ∈ mmidv, 1 ≤ j ∧ j ≤ qv)
+    (hgapv : Separated (2 * ((qv + av : ℕ) : K) * tol) (clampedU x0v xlv umidv))
+    (hnz : au ≠ 0 ∨ av ≠ 0)
+    (o : Obj K) (hw : C06.WF o 2)
+    (hb0 : o.basis 0 = openBasis (qu+1) (clampedU x0u xlu umidu) (clampedM (qu+1) mmidu))
+    (hb1 : o.basis 1 = openBasis (qv+1) (clampedU x0v xlv umidv) (clampedM (qv+1) mmidv))
+    (hnc : o.rational = true → 1 ≤ o.ncomp) :
+    ∃ o', o.raiseOrder tol [(au : Int), (av : Int)] none = .ok (.self, o')
+      ∧ o.raiseOrderImplicit tol [au, av] = .ok o'
+      ∧ SameEvalSurface tol
+          (openBasis (qu+1) (clampedU x0u xlu umidu) (clampedM (qu+1) mmidu))
+          (openBasis (qu+1+au) (clampedU x0u xlu umidu) (clampedM (qu+1+au) (mmidu.map (· + au))))
+          (openBasis (qv+1) (clampedU x0v xlv umidv) (clampedM (qv+1) mmidv))
+          (openBasis (qv+1+av) (clampedU x0v xlv umidv) (clampedM (qv+1+av) (mmidv.map (· + av)))) o o' :=
+  bridge_C05_clamped_surface tol htol qu au hqu x0u xlu umidu mmidu hlenu hmu hgapu
+    qv av hqv x0v xlv umidv mmidv hlenv hmv hgapv hnz o hw hb0 hb1 hnc
 
 /-! ## The continuity hypothesis of `reverse` cannot be dropped -/
 
